@@ -45,6 +45,7 @@ class Session:
         self.subscribed = set()
         self.in_multi = {}
         self.deferred = []
+        self.enrich = None      # optional function(ev) -> None called on every cmd event before it is written
 
     def reset(self):
         self.trace.emit({'k': 'reset'})
@@ -142,8 +143,10 @@ class Session:
         else:
             r = self._recv_reply(cid, cl, timeout if timeout is not None else self.reply_timeout)
         t1 = self.trace.now() + 1
-        self.trace.emit({'k': 'cmd', 'c': cid, 'argv': [jb(a) for a in argv], 'r': resp.to_json(r),
-                         't0': t0, 't1': t1})
+        ev = {'k': 'cmd', 'c': cid, 'argv': [jb(a) for a in argv], 'r': resp.to_json(r), 't0': t0, 't1': t1}
+        if self.enrich:
+            self.enrich(ev)
+        self.trace.emit(ev)
         for ev in self.deferred:
             self.trace.emit(ev)
         self.deferred = []
